@@ -1112,6 +1112,36 @@ class DiskRefsContainer(RefsContainer):
             # instead.
             self._invalidate_packed_refs_cache()
 
+    def _prepare_loose_ref_path(self, realname: Ref, filename: bytes) -> None:
+        """Get the path of a loose ref ready to be locked and written.
+
+        Refuses a name that collides, as file versus directory, with a packed
+        ref (loose refs collide in the file system by themselves), and removes
+        an empty directory left at the path, e.g. by an update of a ref below
+        it that did not go through.
+
+        Args:
+          realname: Name of the ref
+          filename: Path of its loose file
+
+        Raises:
+          NotADirectoryError: if an ancestor of the name is a packed ref
+          IsADirectoryError: if a packed ref lives below the name
+        """
+        packed_refs = self.get_packed_refs()
+        # make sure none of the ancestor folders is in packed refs
+        probe_ref = Ref(os.path.dirname(realname))
+        while probe_ref:
+            if packed_refs.get(probe_ref, None) is not None:
+                raise NotADirectoryError(filename)
+            probe_ref = Ref(os.path.dirname(probe_ref))
+        prefix = realname + b"/"
+        if any(ref.startswith(prefix) for ref in packed_refs):
+            raise IsADirectoryError(filename)
+        with suppress(OSError):
+            os.rmdir(filename)
+        ensure_dir_exists(os.path.dirname(filename))
+
     def _prune_loose_ref(self, name: Ref, expected: ObjectID | None) -> None:
         """Remove the loose file of a ref that now lives in packed-refs.
 
@@ -1330,16 +1360,8 @@ class DiskRefsContainer(RefsContainer):
         except (KeyError, IndexError, SymrefLoop):
             realname = name
         filename = self.refpath(realname)
-
-        # make sure none of the ancestor folders is in packed refs
-        probe_ref = Ref(os.path.dirname(realname))
         packed_refs = self.get_packed_refs()
-        while probe_ref:
-            if packed_refs.get(probe_ref, None) is not None:
-                raise NotADirectoryError(filename)
-            probe_ref = Ref(os.path.dirname(probe_ref))
-
-        ensure_dir_exists(os.path.dirname(filename))
+        self._prepare_loose_ref_path(realname, filename)
         with GitFile(filename, "wb") as f:
             if old_ref is not None:
                 try:
@@ -1414,16 +1436,7 @@ class DiskRefsContainer(RefsContainer):
             realname = name
         self._check_refname(realname)
         filename = self.refpath(realname)
-
-        # make sure none of the ancestor folders is in packed refs
-        probe_ref = Ref(os.path.dirname(realname))
-        packed_refs = self.get_packed_refs()
-        while probe_ref:
-            if packed_refs.get(probe_ref, None) is not None:
-                raise NotADirectoryError(filename)
-            probe_ref = Ref(os.path.dirname(probe_ref))
-
-        ensure_dir_exists(os.path.dirname(filename))
+        self._prepare_loose_ref_path(realname, filename)
         with GitFile(filename, "wb") as f:
             if os.path.exists(filename) or name in self.get_packed_refs():
                 f.abort()
@@ -1471,6 +1484,9 @@ class DiskRefsContainer(RefsContainer):
         """
         self._check_refname(name)
         filename = self.refpath(name)
+        with suppress(OSError):
+            # an empty directory left behind at the path of the ref
+            os.rmdir(filename)
         ensure_dir_exists(os.path.dirname(filename))
         f = GitFile(filename, "wb")
         try:
